@@ -357,7 +357,7 @@ STD_HISTORY = [
 
 def random_tree(rng, depth):
     if depth == 0 or rng.random() < 0.25:
-        return list(rng.choice(LEAVES + [["sink"], ["sink"], ["sink", "empty"], ["queue", rng.choice(["0", "1", "0/2"])],
+        return list(rng.choice(LEAVES + [["sink"], ["sink"], ["sink", "empty"], ["queue", rng.choice(["0", "1", "0/2", "h%3A80", "100%", "{0}"])],
                                          ["queue", "7", "dotted"]]))
     r = rng.random()
     kids = lambda: [random_tree(rng, depth - 1) for _ in range(rng.randint(1, 3))]  # noqa: E731
@@ -420,6 +420,10 @@ def run(ctx):
             r = rng.random()
             if r < 0.08:
                 hist += ["stop", "start"]
+            elif r < 0.12:
+                # "every call": a run started inside a run (a result already started by its dispatcher, handed to
+                # code that brackets itself), a stop with no start - the decorators keep no run state of their own
+                hist.append(rng.choice(["start", "start", "stop"]))
             else:
                 hist.append(random_event(rng))
         hist.append("stop")
